@@ -3,15 +3,19 @@
 The agent sees only the property text and its own scratch worktree (nothing from /verif)."""
 import json, sys
 pid = sys.argv[1]
+round2 = len(sys.argv) > 2 and sys.argv[2] == '2'
+wt = f'/tmp/wt/{pid}' + ('b' if round2 else '')
+out = f'/tmp/mut2/{pid}' if round2 else f'/tmp/mut/{pid}'
 for l in open('/verif/properties.jsonl'):
     p = json.loads(l)
     if p['id'] == pid:
         break
 else:
     sys.exit("no such property")
+extra = (" Stay away from the single most obvious line for this property: look at helper functions, less-travelled branches and error paths, the secondary implementations of the same behaviour (generated code checked into the repository, the reflection-based codec, client side versus server side, signature-driven readers), state that two functions must keep consistent, and clean-up / shutdown paths. At least one of the three should involve code that is NOT in the file a reader would open first for this property." if round2 else "")
 print(f"""You are helping test a verification effort on an open-source Go project, lugu/qiloop (a Go implementation of SoftBank's QiMessaging RPC protocol: wire format, type-signature codec, IDL parser and proxy/stub generator, client/server bus, service directory).
 
-Your own scratch git worktree of the project is at /tmp/wt/{pid} (detached HEAD of the project's current commit). Work ONLY inside /tmp/wt/{pid} and write your results to /tmp/mut/{pid}/. Do NOT read or touch /repo, /verif, /root/.vp or other directories under /tmp/wt or /tmp/mut: your work must be independent.
+Your own scratch git worktree of the project is at {wt} (detached HEAD of the project's current commit). Work ONLY inside {wt} and write your results to {out}/. Do NOT read or touch /repo, /verif, /root/.vp or other directories under /tmp/wt or /tmp/mut: your work must be independent.
 
 Here is a semantic property the project is supposed to satisfy:
 
@@ -21,15 +25,15 @@ Here is a semantic property the project is supposed to satisfy:
 
 Task: produce THREE different, independent source changes ("mutants") to the project (non-test .go files only) that each BREAK this property while
   (a) the project still compiles (`go build ./...`), and
-  (b) the project's existing test suite still passes unchanged: `cd /tmp/wt/{pid} && go test -vet=off -count=1 ./...` (run it at least twice; some tests use timing).
-Each mutant should be REALISTIC (the kind of slip or well-meant "simplification"/"optimisation"/refactor a maintainer could commit) and SUBTLE: it must need something specific to manifest — a particular interleaving, a fault or close at a particular point, a multi-step sequence of operations, an unusual input (boundary size, rarely used type, hostile length field), or two cooperating sites that each look fine alone — NOT something ordinary use would expose at once. The three mutants should break the property through different mechanisms / different code locations (read the relevant code first and pick distinct places). Keep each change small (a few lines).
+  (b) the project's existing test suite still passes unchanged: `cd {wt} && go test -vet=off -count=1 ./...` (run it at least twice; some tests use timing).
+Each mutant should be REALISTIC (the kind of slip or well-meant "simplification"/"optimisation"/refactor a maintainer could commit) and SUBTLE: it must need something specific to manifest — a particular interleaving, a fault or close at a particular point, a multi-step sequence of operations, an unusual input (boundary size, rarely used type, hostile length field), or two cooperating sites that each look fine alone — NOT something ordinary use would expose at once. The three mutants should break the property through different mechanisms / different code locations (read the relevant code first and pick distinct places).{extra} Keep each change small (a few lines).
 
-For each mutant N in 1..3 write into /tmp/mut/{pid}/mN/ :
+For each mutant N in 1..3 write into {out}/mN/ :
   - patch.diff  : output of `git diff` in the worktree with ONLY that mutant applied (it must apply to a clean checkout with `git apply`);
   - a demonstration: either demo_test.go (a Go test file; say in README which package directory it must be copied into, use a test name starting with TestSeeded) or demo/main.go (a small program), which FAILS (test failure / non-zero exit / panic / detected deadlock via timeout) with the mutant applied and PASSES on the unmodified worktree. The demonstration must be deterministic or nearly so (if it depends on scheduling, loop enough or force the interleaving), finish within 60 s, and use only the standard library and the project's own packages (no network access is available; in-memory pipes or unix sockets under /tmp are fine);
   - README.md : which clause of the property breaks and how, what it needs in order to manifest, the exact commands you ran, and their observed results (existing suite passes with the mutant; demo passes without and fails with it).
 Verify all of that yourself before finishing: apply → build → full suite (twice) → demo fails; `git checkout -- . && git clean -fd` → demo passes. Leave the worktree clean (no mutant applied, no stray files) when you are done.
 
-Environment notes: there is no network. Use the default `go` (1.23). Run go commands with the environment `GOPROXY=off GOSUMDB=off GOTOOLCHAIN=local` and do not pass -mod=mod (e.g. `cd /tmp/wt/{pid} && GOPROXY=off GOSUMDB=off GOTOOLCHAIN=local go test -vet=off -count=1 ./...`); if go.mod gets modified, restore it with `git checkout go.mod go.sum`. The full suite takes about 10 s. Do not commit anything. Do not modify or delete existing tests. Other agents are running on this machine, so avoid using more than 4 cores at a time (`-p 4`).
+Environment notes: there is no network. Use the default `go` (1.23). Run go commands with the environment `GOPROXY=off GOSUMDB=off GOTOOLCHAIN=local` and do not pass -mod=mod (e.g. `cd {wt} && GOPROXY=off GOSUMDB=off GOTOOLCHAIN=local go test -vet=off -count=1 ./...`); if go.mod gets modified, restore it with `git checkout go.mod go.sum`. The full suite takes about 10 s. Do not commit anything. Do not modify or delete existing tests. Other agents are running on this machine, so avoid using more than 4 cores at a time (`-p 4`).
 
 When finished, reply with a short summary: for each mutant, the file/function changed, the mechanism, and whether you verified (suite passes, demo fails with / passes without).""")
